@@ -240,52 +240,55 @@ inductive Scan
   | bomFill
   deriving Repr
 
+/-- the `"` arm: `rest` = the window after the opening quote (offset `i + 1`) -/
+def quoteTok (rest : Bytes) (i : Nat) : Scan :=
+  match quoteScan rest 0 with
+  | .closed n => .tok (i + 1 + n + 1) (.quoted (rest.take n))
+  | .more carry off => .refill .quote carry off
+
+/-- the `_` arm (and the non-`[` branch of the `@` arm): the first byte is taken unconditionally,
+then bytes up to the first boundary byte. -/
+def unqTok (c : UInt8) (rest : Bytes) (i : Nat) : Scan :=
+  match findIdx isBoundary rest 0 with
+  | none => .refill .unquoted (rest.length + 1) (rest.length + 1)
+  | some k => .tok (i + 1 + k) (.unquoted ((c :: rest).take (1 + k)))
+
+/-- the `@` arm -/
+def atTok (c : UInt8) (rest : Bytes) (i : Nat) : Scan :=
+  match rest with
+  | [] => .refill .none 1 0
+  | d :: rest' =>
+    if d == 91 then
+      match findIdx (· == 93) rest' 0 with
+      | none => .refill .none (rest.length + 1) 0
+      | some k => .tok (i + 2 + k + 1) (.unquoted ((c :: rest).take (2 + k + 1)))
+    else unqTok c rest i
+
+/-- the operator arms `=` `<` `>` (one byte of look-ahead for a following `=`) -/
+def opTok2 (plain withEq : Op) (rest : Bytes) (i : Nat) : Scan :=
+  match rest with
+  | [] => .refill .none 1 0
+  | d :: _ => if d != 61 then .tok (i + 1) (.op plain) else .tok (i + 2) (.op withEq)
+
+/-- the operator arms `!` `?` (the same operator with or without a following `=`) -/
+def opTok1 (o : Op) (rest : Bytes) (i : Nat) : Scan :=
+  match rest with
+  | [] => .refill .none 1 0
+  | d :: _ => if d == 61 then .tok (i + 2) (.op o) else .tok (i + 1) (.op o)
+
 /-- the arms of `next_opt_fallback` that start a token at the byte `c` (offset `i`), `rest` =
 the window after `c`. -/
 def tokenAt (c : UInt8) (rest : Bytes) (i : Nat) : Scan :=
   if c == 123 then .tok (i + 1) .open_
   else if c == 125 then .tok (i + 1) .close
-  else if c == 34 then
-    match quoteScan rest 0 with
-    | .closed n => .tok (i + 1 + n + 1) (.quoted (rest.take n))
-    | .more carry off => .refill .quote carry off
-  else if c == 64 then
-    match rest with
-    | [] => .refill .none 1 0
-    | d :: rest' =>
-      if d == 91 then
-        match findIdx (· == 93) rest' 0 with
-        | none => .refill .none (rest.length + 1) 0
-        | some k => .tok (i + 2 + k + 1) (.unquoted ((c :: rest).take (2 + k + 1)))
-      else
-        match findIdx isBoundary rest 0 with
-        | none => .refill .unquoted (rest.length + 1) (rest.length + 1)
-        | some k => .tok (i + 1 + k) (.unquoted ((c :: rest).take (1 + k)))
-  else if c == 61 then
-    match rest with
-    | [] => .refill .none 1 0
-    | d :: _ => if d != 61 then .tok (i + 1) (.op .eq) else .tok (i + 2) (.op .exact)
-  else if c == 60 then
-    match rest with
-    | [] => .refill .none 1 0
-    | d :: _ => if d != 61 then .tok (i + 1) (.op .lt) else .tok (i + 2) (.op .le)
-  else if c == 33 then
-    match rest with
-    | [] => .refill .none 1 0
-    | d :: _ => if d == 61 then .tok (i + 2) (.op .ne) else .tok (i + 1) (.op .ne)
-  else if c == 63 then
-    match rest with
-    | [] => .refill .none 1 0
-    | d :: _ => if d == 61 then .tok (i + 2) (.op .exists_) else .tok (i + 1) (.op .exists_)
-  else if c == 62 then
-    match rest with
-    | [] => .refill .none 1 0
-    | d :: _ => if d != 61 then .tok (i + 1) (.op .gt) else .tok (i + 2) (.op .ge)
-  else
-    -- `_` arm: the first byte is taken unconditionally
-    match findIdx isBoundary rest 0 with
-    | none => .refill .unquoted (rest.length + 1) (rest.length + 1)
-    | some k => .tok (i + 1 + k) (.unquoted ((c :: rest).take (1 + k)))
+  else if c == 34 then quoteTok rest i
+  else if c == 64 then atTok c rest i
+  else if c == 61 then opTok2 .eq .exact rest i
+  else if c == 60 then opTok2 .lt .le rest i
+  else if c == 33 then opTok1 .ne rest i
+  else if c == 63 then opTok1 .exists_ rest i
+  else if c == 62 then opTok2 .gt .ge rest i
+  else unqTok c rest i
 
 inductive Mode | top | comment (start : Nat)
   deriving Repr
